@@ -559,6 +559,7 @@ func driver(id, tier string) int {
 	seen := map[string]bool{}
 	sort.SliceStable(failures, func(i, j int) bool { return failures[i].Violation.Key() < failures[j].Violation.Key() })
 	nViol := 0
+	unreproduced := 0
 	for _, f := range failures {
 		if seen[f.Violation.Key()] {
 			continue
@@ -576,30 +577,45 @@ func driver(id, tier string) int {
 		if err := os.WriteFile(path, b, 0o644); err != nil {
 			fatal2("%v", err)
 		}
-		// fresh-process confirmation
-		cmd := exec.Command(self, "replay", path)
-		cmd.Env = append(os.Environ(), "VERIF_REPLAY_JSON=1")
-		outb, err := cmd.Output()
-		if err != nil {
-			fmt.Fprintf(os.Stderr, "replay of %s failed to run: %v\n", path, err)
-			return 2
+		// fresh-process confirmation. For C13 (the program's own nondeterminism is the
+		// subject) a violation that stems from real scheduling or heap addresses recurs
+		// only with the probability the program allows: up to 25 fresh processes are tried.
+		attempts := 1
+		if id == "C13" {
+			attempts = 25
 		}
-		var ro ReplayOut
-		if err := json.Unmarshal(outb, &ro); err != nil {
-			fmt.Fprintf(os.Stderr, "replay of %s: %v\n", path, err)
-			return 2
-		}
-		ok := false
-		for _, v := range ro.Violations {
-			if v.Class == f.Violation.Class && v.Sig == f.Violation.Sig {
-				ok = true
+		ok, digestOK := false, false
+		var lastDigest string
+		for a := 0; a < attempts && !ok; a++ {
+			cmd := exec.Command(self, "replay", path)
+			cmd.Env = append(os.Environ(), "VERIF_REPLAY_JSON=1")
+			outb, err := cmd.Output()
+			if err != nil {
+				fmt.Fprintf(os.Stderr, "replay of %s failed to run: %v\n", path, err)
+				return 2
 			}
+			var ro ReplayOut
+			if err := json.Unmarshal(outb, &ro); err != nil {
+				fmt.Fprintf(os.Stderr, "replay of %s: %v\n", path, err)
+				return 2
+			}
+			lastDigest = ro.Digest
+			for _, v := range ro.Violations {
+				if v.Class == f.Violation.Class && v.Sig == f.Violation.Sig {
+					ok = true
+				}
+			}
+			digestOK = ro.Digest == f.Digest
 		}
-		// C13 is about the program's own nondeterminism: a violation whose histories
-		// depend on heap addresses or process identity recurs with the same class
-		// but not necessarily the same bytes.
-		if !ok || (ro.Digest != f.Digest && id != "C13") {
-			fmt.Fprintf(os.Stderr, "HARNESS NONDETERMINISM: %s does not reproduce in a fresh process (class ok=%v digest %s vs %s)\n", path, ok, ro.Digest, f.Digest)
+		if !ok && id == "C13" {
+			// the program's own nondeterminism did not show again in 25 fresh processes
+			fmt.Printf("note: %s (class %s) did not recur in %d fresh processes; not reported\n", path, f.Violation.Class, attempts)
+			os.Remove(path)
+			unreproduced++
+			continue
+		}
+		if !ok || (!digestOK && id != "C13") {
+			fmt.Fprintf(os.Stderr, "HARNESS NONDETERMINISM: %s does not reproduce in a fresh process (class ok=%v digest %s vs %s)\n", path, ok, lastDigest, f.Digest)
 			return 2
 		}
 		fmt.Printf("violation class=%s sig=%q: %s\n", f.Violation.Class, f.Violation.Sig, oneLine(f.Violation.Msg))
@@ -608,6 +624,10 @@ func driver(id, tier string) int {
 		exit = 1
 	}
 
+	if unreproduced > 0 && nViol == 0 {
+		fmt.Fprintf(os.Stderr, "violations were observed but none recurred on replay: inconclusive\n")
+		return 2
+	}
 	wall := time.Since(start).Seconds()
 	writeEvidence(prop, tier, seed, total, st, wall, nViol, nRandom, nSystem, W, knownHits, known)
 	fmt.Printf("property=%s tier=%s cases=%d (systematic %d, random %d) runs=%d ticks=%d wall=%.1fs violations=%d\n", id, tier, total.Cases, nSystem, nRandom, total.Runs, total.Ticks, wall, nViol)
